@@ -1128,7 +1128,7 @@ impl<'arena> PrettyFormatter<'arena> {
             | Pattern::Named(Named(field, inner)) => self.named_pattern(pattern, field, *inner),
             | Pattern::Ctor(Ctor(name, inner)) => {
                 self.constructor(name)
-                    .append(self.constructor_argument_gap((*inner).into()))
+                    .append(self.pattern_constructor_argument_gap(*inner))
                     .append(self.pattern_constructor_argument(*inner))
             }
             | Pattern::Project(ProjectionPattern(field, inner)) => {
@@ -1603,6 +1603,26 @@ impl<'arena> PrettyFormatter<'arena> {
             RcDoc::nil()
         } else {
             RcDoc::text(" ")
+        }
+    }
+
+    /// The same for a pattern argument, whose elided singleton groups print their
+    /// own leading comments in front of the surviving delimiter.
+    fn pattern_constructor_argument_gap(&self, body: PatId) -> RcDoc<'arena> {
+        let mut current = body;
+        loop {
+            if !self.arena.trivia.leading_comments(current.into()).is_empty() {
+                return RcDoc::text(" ");
+            }
+            match &self.arena.pats[&current] {
+                | Pattern::Paren(Paren(patterns)) => match patterns.as_slice() {
+                    | [inner] if self.should_elide_parentheses(current.into(), (*inner).into()) => {
+                        current = *inner;
+                    }
+                    | _ => return RcDoc::nil(),
+                },
+                | _ => return RcDoc::nil(),
+            }
         }
     }
 
